@@ -118,11 +118,23 @@ def tag_props(tag):
     return head.split('+')
 
 
-def counts_for(tag, prop):
+# A property about one profile inherits rule contracts through DEPS, but not those stated on ANOTHER profile's functions
+# (C12 has a nickname half and a password half, C10 a username half and a nickname half, ...): clauses on these modules
+# do not count for it through a dependency.  Clauses tagged with the property itself always count.
+NOT_VIA_DEPS = {
+    'C04': ('nicknames::', 'passwords::'),
+    'C05': ('nicknames::', 'usernames::', 'bidi::'),
+    'C06': ('usernames::', 'passwords::', 'bidi::'),
+}
+
+
+def counts_for(tag, prop, item=None):
     ps = tag_props(tag)
     if prop in ps:
         return True
     if tag in OWN_ONLY:
+        return False
+    if item and any(item.startswith(x) for x in NOT_VIA_DEPS.get(prop, ())):
         return False
     for d in _closure(prop):
         if d in ps:
